@@ -91,3 +91,6 @@ _p("C11", assumptions=COMMON_VERUS_ASSUMPTIONS, not_covered=[])
 _p("C09", assumptions=COMMON_VERUS_ASSUMPTIONS, not_covered=[])
 _p("C03", assumptions=COMMON_VERUS_ASSUMPTIONS + COMMON_KANI_ASSUMPTIONS, not_covered=[])
 _p("C01", assumptions=COMMON_VERUS_ASSUMPTIONS + COMMON_KANI_ASSUMPTIONS, not_covered=[])
+_p("C04", assumptions=COMMON_VERUS_ASSUMPTIONS + COMMON_KANI_ASSUMPTIONS, not_covered=[])
+_p("C20", assumptions=COMMON_KANI_ASSUMPTIONS, not_covered=[])
+_p("C12", assumptions=COMMON_KANI_ASSUMPTIONS, not_covered=[])
